@@ -214,6 +214,8 @@ func family(name string) string {
 		return "meshops-func"
 	case strings.HasPrefix(name, "primitives."):
 		return "primitive"
+	case strings.HasPrefix(name, "modeling."):
+		return "constructor"
 	}
 	return "writer"
 }
@@ -221,7 +223,7 @@ func family(name string) string {
 // opFamily extracts the operation name from a history line for the class.
 func opFamily(line string) string {
 	for _, tok := range strings.Fields(line) {
-		if strings.HasPrefix(tok, "Mesh.") || strings.HasPrefix(tok, "Transform(") || strings.HasPrefix(tok, "repeat.") || strings.Contains(tok, ".Write") || strings.HasPrefix(tok, "meshops.") || strings.HasPrefix(tok, "gausops.") || strings.HasPrefix(tok, "primitives.") {
+		if strings.HasPrefix(tok, "Mesh.") || strings.HasPrefix(tok, "Transform(") || strings.HasPrefix(tok, "repeat.") || strings.Contains(tok, ".Write") || strings.HasPrefix(tok, "meshops.") || strings.HasPrefix(tok, "gausops.") || strings.HasPrefix(tok, "primitives.") || strings.HasPrefix(tok, "modeling.") {
 			return tok
 		}
 	}
@@ -272,9 +274,20 @@ func (Concurrent) Run(c choice.Chooser, opt sim.Options) (res sim.Result) {
 	}
 	tasks := 2 + c.Intn("tasks", 2)
 	plans := make([][]step, tasks)
+	// one run in six: every task starts by constructing a point cloud or
+	// line strip of a drawn size (1..4095) - concurrent construction is
+	// where lazily grown package-level state is grown under contention
+	storm := c.Intn("plan:constructor-storm", 6) == 0
+	if storm {
+		res.Count("probe:concurrent-construction", 1)
+	}
 	for t := range plans {
 		n := 2 + c.Intn("plan:len", 4)
 		own := 0
+		if storm {
+			plans[t] = append(plans[t], step{recv: 0, o: impliedCtorOp(c, shared[0])})
+			own++
+		}
 		for k := 0; k < n; k++ {
 			st := step{recv: c.Intn("plan:recv", len(shared))}
 			if own > 0 && c.Intn("plan:own", 3) == 0 {
